@@ -172,7 +172,8 @@ func vLiftLex(buf string, assertID string) {
 		return
 	}
 	// same validity: try the run in a context where a mis-scanned remainder shows
-	for _, ctx := range []string{"(" + buf + ")", buf + " AND MIT", "MIT OR " + buf, buf + ")"} {
+	for _, ctx := range []string{"(" + buf + ")", buf + " AND MIT", "MIT OR " + buf, buf + ")",
+		"MIT " + buf + "MIT)", "MIT " + buf + "MIT", "(MIT " + buf + " MIT)", "MIT" + buf, "MIT " + buf + "Bison-exception-2.2"} {
 		w, a2 := vRefValid(ctx)
 		g, _ := ValidateLicenses([]string{ctx})
 		if !a2 && g != w {
@@ -183,4 +184,24 @@ func vLiftLex(buf string, assertID string) {
 		}
 	}
 	vNote("lift", "unrealizable")
+}
+
+// lift with the solver's arbitrary bytes after the lexeme replaced by benign continuations:
+// the deviation of one scanner step usually does not depend on them
+func vLiftLexParts(pre, lexeme, post string, assertID string) {
+	vLiftLex(pre+lexeme+post, assertID)
+	if vRT.notes["lift"] == "ok" {
+		return
+	}
+	for _, tail := range []string{"", " ", "(", ")", "(MIT)", " MIT", "+", " AND MIT", ")AND(MIT)"} {
+		for _, head := range []string{pre, "", "MIT ", "(MIT)", "(MIT "} {
+			if tail == post && head == pre {
+				continue
+			}
+			vLiftLex(head+lexeme+tail, assertID)
+			if vRT.notes["lift"] == "ok" {
+				return
+			}
+		}
+	}
 }
